@@ -95,7 +95,10 @@ fn explore(args: &Args) {
     };
     for cs in list {
         line(&format!("BEGIN {cs:#x}"));
-        let case = engine::gen_case(cs, &plan.profile);
+        let case = match plan.custom_gen {
+            Some(g) => g(cs, &plan.profile),
+            None => engine::gen_case(cs, &plan.profile),
+        };
         let rep = engine::run_case(&case, &plan.profile);
         total.inc("cases");
         for (k, v) in &rep.counters.0 {
@@ -106,7 +109,7 @@ fn explore(args: &Args) {
             }
         }
         sigs.extend(rep.sigs.iter().copied());
-        if samples.len() < 2 && rep.counters.get("builds_ok") > 0 && case.ops.len() < 60 {
+        if samples.len() < 2 && rep.counters.get("builds_ok") > 0 && (case.ops.len() < 60 || plan.custom_gen.is_some()) {
             samples.push(engine::case_sample(&case, 40));
         }
         let verdict = match &rep.end {
@@ -147,7 +150,11 @@ fn explore(args: &Args) {
     if samples.is_empty() {
         // fall back to whatever the first case was
         let cs = case_seed(seed, prop, shard);
-        samples.push(engine::case_sample(&engine::gen_case(cs, &plan.profile), 25));
+        let c = match plan.custom_gen {
+            Some(g) => g(cs, &plan.profile),
+            None => engine::gen_case(cs, &plan.profile),
+        };
+        samples.push(engine::case_sample(&c, 25));
     }
     let j = J::obj()
         .set("property", J::s(prop))
